@@ -45,27 +45,108 @@ theorem rsum2_wrapP_right (A B : Nat) (g : Nat → Nat → Nat) :
     rsum2 A B (fun j k => g j (wrapP B k)) = rsum2 A B g :=
   rsum_congr A (fun j _ => rsum_wrapP (g j) B)
 
-/-- **Slab.**  Planes `P 0, …, P (M-1)` of `A × B` sites; between `P i` and `P (i+1)` a slab
-    with two families of rungs `R1 i`, `R2 i`; the constraint at site `(j, k)` of slab `i`
-    involves `P i j k`, `P (i+1) j k`, the rungs `R1 i (j-1) k`, `R1 i j k` and `R2 i j (k-1)`,
-    `R2 i j k` (cyclically), so every rung occurs in exactly two constraints.  If every
-    constraint is even, all planes have the same parity. -/
-theorem slab (A B M : Nat) (P R1 R2 : Nat → Nat → Nat → Nat)
+/-- **Slab, general form.**  Planes `P 0, …, P (M-1)` of `A × B` sites; between `P i` and
+    `P (i+1)` a slab with two families of rungs, each listed twice (`R1' i` is a rearrangement of
+    `R1 i`, `R2' i` of `R2 i`); the constraint at site `(j, k)` of slab `i` involves `P i j k`,
+    `P (i+1) j k` and one entry of each of the four rung lists.  If every constraint is even, all
+    planes have the same parity. -/
+theorem slabG (A B M : Nat) (P R1 R1' R2 R2' : Nat → Nat → Nat → Nat)
+    (h1 : ∀ i, i + 1 < M → rsum2 A B (R1' i) = rsum2 A B (R1 i))
+    (h2 : ∀ i, i + 1 < M → rsum2 A B (R2' i) = rsum2 A B (R2 i))
     (h : ∀ i, i + 1 < M → ∀ j k, j < A → k < B →
-      (P i j k + P (i + 1) j k + R1 i (wrapP A j) k + R1 i j k
-        + R2 i j (wrapP B k) + R2 i j k) % 2 = 0) :
+      (P i j k + P (i + 1) j k + R1' i j k + R1 i j k + R2' i j k + R2 i j k) % 2 = 0) :
     ∀ i, i < M → rsum2 A B (P i) % 2 = rsum2 A B (P 0) % 2 := by
   apply chain M (fun i => rsum2 A B (P i))
   intro i hi
   have he := rsum2_even (h i hi)
-  have e : rsum2 A B (fun j k => P i j k + P (i + 1) j k + R1 i (wrapP A j) k + R1 i j k
-        + R2 i j (wrapP B k) + R2 i j k) =
-      rsum2 A B (P i) + rsum2 A B (P (i + 1)) + rsum2 A B (fun j k => R1 i (wrapP A j) k)
-        + rsum2 A B (R1 i) + rsum2 A B (fun j k => R2 i j (wrapP B k)) + rsum2 A B (R2 i) := by
+  have e : rsum2 A B (fun j k => P i j k + P (i + 1) j k + R1' i j k + R1 i j k
+        + R2' i j k + R2 i j k) =
+      rsum2 A B (P i) + rsum2 A B (P (i + 1)) + rsum2 A B (R1' i)
+        + rsum2 A B (R1 i) + rsum2 A B (R2' i) + rsum2 A B (R2 i) := by
     rw [rsum2_add, rsum2_add, rsum2_add, rsum2_add, rsum2_add]
-  rw [e, rsum2_wrapP_left A B (R1 i), rsum2_wrapP_right A B (R2 i)] at he
+  rw [e, h1 i hi, h2 i hi] at he
   show (rsum2 A B (P i) + rsum2 A B (P (i + 1))) % 2 = 0
   omega
+
+/-- **Slab, periodic.**  The rungs of site `(j, k)` are `R1 i (j-1) k`, `R1 i j k`,
+    `R2 i j (k-1)`, `R2 i j k` (cyclically), so every rung occurs in exactly two constraints. -/
+theorem slab (A B M : Nat) (P R1 R2 : Nat → Nat → Nat → Nat)
+    (h : ∀ i, i + 1 < M → ∀ j k, j < A → k < B →
+      (P i j k + P (i + 1) j k + R1 i (wrapP A j) k + R1 i j k
+        + R2 i j (wrapP B k) + R2 i j k) % 2 = 0) :
+    ∀ i, i < M → rsum2 A B (P i) % 2 = rsum2 A B (P 0) % 2 :=
+  slabG A B M P R1 (fun i j k => R1 i (wrapP A j) k) R2 (fun i j k => R2 i j (wrapP B k))
+    (fun i _ => rsum2_wrapP_left A B (R1 i)) (fun i _ => rsum2_wrapP_right A B (R2 i)) h
+
+theorem rsum_zero {g : Nat → Nat} : ∀ L : Nat, (∀ j, j < L → g j = 0) → rsum L g = 0
+  | 0, _ => rfl
+  | L + 1, h => by
+    simp only [rsum]
+    rw [rsum_zero L (fun j hj => h j (by omega)), h L (by omega)]
+
+/-- open boundary, outer index: the rungs at `2j - 1` and at `2j + 1` (`j < A`) are the same
+    rungs when those at `-1` and `2A - 1` vanish -/
+theorem rsum2_shift_open_left (A B : Nat) (Φ : Int → Nat → Nat)
+    (h0 : ∀ k, k < B → Φ (-1) k = 0) (hA : ∀ k, k < B → Φ (2 * (A : Int) - 1) k = 0) :
+    rsum2 A B (fun j k => Φ (2 * (j : Int) - 1) k) = rsum2 A B (fun j k => Φ (2 * (j : Int) + 1) k) := by
+  unfold rsum2
+  have h := rsum_shift_open (fun j => rsum B (fun k => Φ (2 * (j : Int) - 1) k)) A
+    (rsum_zero B (fun k hk => by simpa using h0 k hk)) (rsum_zero B (fun k hk => hA k hk))
+  rw [← h]
+  apply rsum_congr
+  intro j _
+  apply rsum_congr
+  intro k _
+  congr 1
+  omega
+
+/-- open boundary, inner index -/
+theorem rsum2_shift_open_right (A B : Nat) (Φ : Nat → Int → Nat)
+    (h0 : ∀ j, j < A → Φ j (-1) = 0) (hB : ∀ j, j < A → Φ j (2 * (B : Int) - 1) = 0) :
+    rsum2 A B (fun j k => Φ j (2 * (k : Int) - 1)) = rsum2 A B (fun j k => Φ j (2 * (k : Int) + 1)) := by
+  unfold rsum2
+  apply rsum_congr
+  intro j hj
+  have h := rsum_shift_open (fun k => Φ j (2 * (k : Int) - 1)) B (by simpa using h0 j hj) (hB j hj)
+  rw [← h]
+  apply rsum_congr
+  intro k _
+  congr 1
+  omega
+
+/-- **Slab with open boundaries**, in lattice coordinates (`u` = normal coordinate, `v`, `w` =
+    in-plane coordinates): planes at `u = 2i + 1`, sites `(2j, 2k)`; the constraint at
+    `(2i + 2, 2j, 2k)` involves its six neighbours, and `F` vanishes on the positions just
+    outside the slab. -/
+theorem slab_open (M A B : Nat) (F : Int → Int → Int → Nat)
+    (hv0 : ∀ (i k : Nat), F (2 * i + 2) (-1) (2 * k) = 0)
+    (hvA : ∀ (i k : Nat), F (2 * i + 2) (2 * A - 1) (2 * k) = 0)
+    (hw0 : ∀ (i j : Nat), F (2 * i + 2) (2 * j) (-1) = 0)
+    (hwB : ∀ (i j : Nat), F (2 * i + 2) (2 * j) (2 * B - 1) = 0)
+    (hstab : ∀ i j k : Nat, i + 1 < M → j < A → k < B →
+      (F (2 * i + 1) (2 * j) (2 * k) + F (2 * i + 3) (2 * j) (2 * k)
+        + F (2 * i + 2) (2 * j - 1) (2 * k) + F (2 * i + 2) (2 * j + 1) (2 * k)
+        + F (2 * i + 2) (2 * j) (2 * k - 1) + F (2 * i + 2) (2 * j) (2 * k + 1)) % 2 = 0) :
+    ∀ i : Nat, i < M →
+      rsum2 A B (fun j k => F (2 * i + 1) (2 * j) (2 * k)) % 2 =
+        rsum2 A B (fun j k => F 1 (2 * j) (2 * k)) % 2 := by
+  intro i hi
+  have h := slabG A B M (fun i j k => F (2 * i + 1) (2 * j) (2 * k))
+    (fun i j k => F (2 * i + 2) (2 * j + 1) (2 * k)) (fun i j k => F (2 * i + 2) (2 * j - 1) (2 * k))
+    (fun i j k => F (2 * i + 2) (2 * j) (2 * k + 1)) (fun i j k => F (2 * i + 2) (2 * j) (2 * k - 1))
+    ?_ ?_ ?_ i hi
+  · simpa using h
+  · intro i _
+    exact rsum2_shift_open_left A B (fun v k => F (2 * i + 2) v (2 * k))
+      (fun k _ => hv0 i k) (fun k _ => hvA i k)
+  · intro i _
+    exact rsum2_shift_open_right A B (fun j w => F (2 * i + 2) (2 * j) w)
+      (fun j _ => hw0 i j) (fun j _ => hwB i j)
+  · intro i hi j k hj hk
+    have := hstab i j k hi hj hk
+    have e : (2 * ((i + 1 : Nat) : Int) + 1) = 2 * (i : Int) + 3 := by omega
+    simp only [e]
+    omega
 
 /-- **Ladder with a `+1` wrap**: lines `F 0, …, F (M-1)` of `L` sites, rungs `G i`; the `j`-th
     constraint of rung line `i` involves `F i j`, `F (i+1) j`, `G i j` and `G i (j+1)`
@@ -101,7 +182,23 @@ theorem range2_odd (L : Nat) :
   intro j _
   omega
 
+theorem range2_odd1 (L : Nat) :
+    range2 1 (2 * (L : Int) + 1) = (List.range L).map (fun (j : Nat) => 2 * (j : Int) + 1) := by
+  unfold range2
+  have h : ((2 * (L : Int) + 1 - 1 + 1) / 2).toNat = L := by omega
+  rw [h]
+  apply List.map_congr_left
+  intro j _
+  omega
+
 /-! ### counts along lines and planes -/
+
+/-- a count along a line over the odd coordinates `1, 3, …, 2L - 1` (open lattice) -/
+theorem countP_lineO1 (p : Coord → Bool) (f : Int → Coord) (L : Nat) :
+    ((range2 1 (2 * (L : Int) + 1)).map f).countP p =
+      rsum L (fun j => if p (f (2 * (j : Int) + 1)) = true then 1 else 0) := by
+  rw [range2_odd1, List.map_map]
+  exact countP_range_map p _ L
 
 /-- a count along a line over the odd coordinates of a period -/
 theorem countP_lineO (p : Coord → Bool) (f : Int → Coord) (L : Nat) :
